@@ -74,7 +74,8 @@ func c18PBKDF2(rt *rapid.T, hs c18Hash) (c18PB, string, error) {
 		keyLen = 200
 	}
 	want := refnacl.PBKDF2(hs.newH, pw, salt, iter, keyLen)
-	pwc, sc := append([]byte{}, pw...), append([]byte{}, salt...)
+	pwIn, saltIn := drawIn(rt, "pwbuf", pw), drawIn(rt, "saltbuf", salt)
+	pwc, sc := pwIn.s, saltIn.s
 	var got []byte
 	if err := catch(func() { got = pbkdf2.Key(pwc, sc, iter, keyLen, hs.newH) }); err != nil {
 		return c18PB{}, kc, fmt.Errorf("pbkdf2.Key(%s, |P|=%d, |S|=%d, c=%d, dkLen=%d): %v", hs.name, len(pw), len(salt), iter, keyLen, err)
@@ -82,8 +83,8 @@ func c18PBKDF2(rt *rapid.T, hs c18Hash) (c18PB, string, error) {
 	if !bytes.Equal(got, want) {
 		return c18PB{}, kc, fmt.Errorf("pbkdf2.Key(%s, P=%x, S=%x, c=%d, dkLen=%d) = %x, RFC 8018 PBKDF2 gives %x", hs.name, pw, salt, iter, keyLen, got, want)
 	}
-	if !bytes.Equal(pwc, pw) || !bytes.Equal(sc, salt) {
-		return c18PB{}, kc, fmt.Errorf("pbkdf2.Key modified password or salt")
+	if err := allIntact("pbkdf2.Key(password, salt)", pwIn, saltIn); err != nil {
+		return c18PB{}, kc, err
 	}
 	return c18PB{hs.name, pw, salt, iter, keyLen, want}, kc, nil
 }
@@ -121,7 +122,7 @@ func c18Hashlib(cases []c18PB) (int, error) {
 
 // c18Stream drives one HKDF reader through a drawn sequence of Read sizes and
 // checks it against the position model over the single RFC 5869 output stream.
-func c18Stream(rt *rapid.T, hs c18Hash, r io.Reader, okm []byte, desc string) (classes []string, crossed, touched bool, err error) {
+func c18Stream(rt *rapid.T, hs c18Hash, r io.Reader, okm []byte, desc string, between func() error) (classes []string, crossed, touched bool, err error) {
 	limit := 255 * hs.size
 	pos := 0
 	// One caller buffer is reused for all reads of a history; it holds stale
@@ -131,6 +132,11 @@ func c18Stream(rt *rapid.T, hs c18Hash, r io.Reader, okm []byte, desc string) (c
 	reads := 0
 	read := func(n int, class string) error {
 		reads++
+		if between != nil {
+			if e := between(); e != nil {
+				return e
+			}
+		}
 		if cap(scratch) < n || reads%3 == 0 {
 			scratch = make([]byte, n+64)
 		}
@@ -288,30 +294,96 @@ func TestC18(t *testing.T) {
 		if !bytes.Equal(prk, wantPRK) {
 			rt.Fatalf("VF-VIOLATION: property=C18 hkdf.Extract(%s, IKM=%x, salt=%x [%s]) = %x, RFC 5869 PRK is %x", hs.name, secret, salt, saltClass, prk, wantPRK)
 		}
-		var r io.Reader
 		ctor := rapid.SampledFrom([]string{"New", "Expand", "Expand(arbitrary key)"}).Draw(rt, "ctor")
 		key := wantPRK
-		infoArg := clone(info)
-		switch ctor {
-		case "New":
-			r = hkdf.New(hs.newH, append([]byte{}, secret...), clone(salt), infoArg)
-		case "Expand":
-			r = hkdf.Expand(hs.newH, append([]byte{}, wantPRK...), infoArg)
-		default:
+		if ctor == "Expand(arbitrary key)" {
 			key = c18Bytes(rt, "prk")
-			r = hkdf.Expand(hs.newH, append([]byte{}, key...), infoArg)
 		}
+		// Input slices as the caller owns them: possibly with spare capacity.
+		// All readers of this case are created from the SAME slices before any
+		// of them is read.
+		secretIn, saltIn, infoIn, keyIn := drawIn(rt, "secretbuf", secret), drawIn(rt, "saltbuf", salt), drawIn(rt, "infobuf", info), drawIn(rt, "keybuf", key)
+		mk := func(how string, k *inbuf) io.Reader {
+			if how == "New" {
+				return hkdf.New(hs.newH, secretIn.s, saltIn.s, infoIn.s)
+			}
+			return hkdf.Expand(hs.newH, k.s, infoIn.s)
+		}
+		r := mk(ctor, keyIn)
 		okm, err := refnacl.HKDFExpand(hs.newH, key, info, 255*hs.size)
 		if err != nil {
 			harnessTrouble(c, rt, "reference HKDF-Expand failed: %v", err)
 		}
-		desc := fmt.Sprintf("hkdf.%s(%s, |secret|=%d, %s, %s/%d)", ctor, hs.name, len(secret), saltClass, infoClass, len(info))
-		classes, crossed, touched, err := c18Stream(rt, hs, r, okm, desc)
+		// sibling readers sharing the info slice (same or another PRK)
+		type sib struct {
+			r   io.Reader
+			okm []byte
+			pos int
+			how string
+		}
+		var sibs []*sib
+		nsib := rapid.IntRange(0, 2).Draw(rt, "siblings")
+		key2 := append([]byte("second PRK "), wantPRK...)
+		key2In := newIn(key2, 5)
+		for i := 0; i < nsib; i++ {
+			how := rapid.SampledFrom([]string{"Expand(other key)", "Expand", "New"}).Draw(rt, "sibHow")
+			sb := &sib{how: how}
+			switch how {
+			case "New":
+				sb.r, sb.okm = mk("New", nil), nil
+				sb.okm, _ = refnacl.HKDFExpand(hs.newH, wantPRK, info, 255*hs.size)
+			case "Expand":
+				sb.r = mk("Expand", keyIn)
+				sb.okm = okm
+			default:
+				sb.r = mk("Expand", key2In)
+				sb.okm, _ = refnacl.HKDFExpand(hs.newH, key2, info, 255*hs.size)
+			}
+			sibs = append(sibs, sb)
+		}
+		if err := allIntact("hkdf."+ctor+" constructor", secretIn, saltIn, infoIn, keyIn, key2In); err != nil {
+			rt.Fatalf("VF-VIOLATION: property=C18 %v", err)
+		}
+		// The secret, salt and PRK have been consumed by HMAC when the constructor
+		// returns: the caller may reuse those buffers.  The info slice is kept by
+		// reference by the reader (the documentation does not promise a copy), so
+		// only the spare capacity behind it is overwritten, never info[0:len].
+		secretIn.clobber(0x31)
+		saltIn.clobber(0x32)
+		keyIn.clobber(0x33)
+		key2In.clobber(0x34)
+		desc := fmt.Sprintf("hkdf.%s(%s, |secret|=%d, %s, %s/%d, info cap-len=%d, %d sibling readers on the same info slice)", ctor, hs.name, len(secret), saltClass, infoClass, len(info), cap(infoIn.s)-len(infoIn.s), nsib)
+		step := 0
+		between := func() error {
+			step++
+			if err := allIntact(desc+" after a Read", infoIn); err != nil {
+				return err
+			}
+			infoIn.scribble(byte(step)) // the caller appends to its own info slice
+			for _, sb := range sibs {
+				n := (step*7 + hs.size/2) % (2*hs.size + 3)
+				if sb.pos+n > len(sb.okm) {
+					continue
+				}
+				p := filled(n)
+				got, rerr := sb.r.Read(p)
+				if got != n || rerr != nil || !bytes.Equal(p, sb.okm[sb.pos:sb.pos+n]) {
+					return fmt.Errorf("%s: sibling reader hkdf.%s, read interleaved with the first one: Read(%d) at position %d returned (%d, %v) and differs from its RFC 5869 stream at byte %d", desc, sb.how, n, sb.pos, got, rerr, sb.pos+firstDiff(p, sb.okm[sb.pos:sb.pos+n]))
+				}
+				sb.pos += n
+			}
+			return nil
+		}
+		classes, crossed, touched, err := c18Stream(rt, hs, r, okm, desc, between)
 		if err != nil {
 			rt.Fatalf("VF-VIOLATION: property=C18 %v [secret=%x salt=%x info=%x key=%x]", err, secret, salt, info, key)
 		}
-		if info != nil && !bytes.Equal(infoArg, info) {
-			rt.Fatalf("VF-VIOLATION: property=C18 %s modified the info slice", desc)
+		if err := allIntact(desc+" at the end", infoIn); err != nil {
+			rt.Fatalf("VF-VIOLATION: property=C18 %v", err)
+		}
+		c.Class(fmt.Sprintf("hkdf:siblings=%d", nsib))
+		if cap(infoIn.s) > len(infoIn.s) {
+			c.Class("hkdf:info-has-spare-capacity")
 		}
 		head := classes
 		if len(head) > 6 {
@@ -384,6 +456,32 @@ func TestC18(t *testing.T) {
 		}
 	}
 	c.Exhaustive("sha1/sha256/sha512 x fixed read size walked over the whole 255*HashLen stream, then refused overshoot, exact remainder, refused extra byte", total)
+
+	// Directed: two readers created from one info slice that has spare capacity,
+	// read alternately, with the caller appending to its info slice in between.
+	for _, hs := range c18Hashes {
+		for _, extra := range []int{0, 1, 8} {
+			info := newIn([]byte("shared context info"), extra)
+			prkA, prkB := bytes.Repeat([]byte{0xa1}, hs.size), bytes.Repeat([]byte{0xb2}, hs.size)
+			ra, rb := hkdf.Expand(hs.newH, prkA, info.s), hkdf.Expand(hs.newH, prkB, info.s)
+			wa, _ := refnacl.HKDFExpand(hs.newH, prkA, info.orig, 6*hs.size)
+			wb, _ := refnacl.HKDFExpand(hs.newH, prkB, info.orig, 6*hs.size)
+			for blk := 0; blk < 6; blk++ {
+				for k, r := range []io.Reader{ra, rb} {
+					want := [][]byte{wa, wb}[k][blk*hs.size : (blk+1)*hs.size]
+					p := filled(hs.size)
+					n, err := r.Read(p)
+					if n != hs.size || err != nil || !bytes.Equal(p, want) || !info.intact() {
+						what := fmt.Sprintf("hkdf.Expand(%s): two readers created from one info slice (cap-len=%d) and read alternately: reader %d block %d returned (%d, %v), stream correct: %v, info slice and its spare capacity untouched: %v", hs.name, extra, k, blk+1, n, err, bytes.Equal(p, want), info.intact())
+						c.Violation(what, "")
+						t.Fatalf("VF-VIOLATION: property=C18 %s", what)
+					}
+					info.scribble(byte(16*blk + k))
+				}
+			}
+			c.Case(true, fmt.Sprintf("table|shared-info|%s|%d", hs.name, extra), "table:two-readers-one-info-slice")
+		}
+	}
 
 	c18Concurrent(c, t)
 
